@@ -69,6 +69,10 @@ def run(seed=0):
     ok("utf8: decode(encode(s)) == s and len(encode(s)) >= len(s)", all(s.encode("utf-8").decode("utf-8") == s and len(s.encode("utf-8")) >= len(s) for s in strs))
     ok("utf-8-sig: one leading EF BB BF is dropped, then utf-8", all(b.decode("utf-8-sig") == (b[3:] if b.startswith(b"\xef\xbb\xbf") else b).decode("utf-8")
                                                                       for b in (b"", b"abc", b"\xef\xbb\xbf", b"\xef\xbb\xbfabc", b"\xef\xbb\xbf\xef\xbb\xbfx", b"a\xef\xbb\xbf")))
+    import shlex
+    ok("shlex.quote: identity on safe words, one single-quoted word (longer by >= 2) otherwise; a space or the empty string is never safe",
+       all((shlex.quote(x) == x) or (shlex.quote(x).startswith("'") and len(shlex.quote(x)) >= len(x) + 2) for x in ("python", "/usr/bin/python3.12", "py -S -E", "", "a'b", "x y", "$HOME"))
+       and all(shlex.quote(x) != x for x in ("py -S", "", " ")))
     ok("utf8: lone surrogates raise UnicodeEncodeError", all(raises(lambda s=s: s.encode("utf-8"), UnicodeEncodeError) for s in ("\ud800", "a\udfffb")))
     ok("utf8: invalid bytes raise UnicodeDecodeError", all(raises(lambda b=b: b.decode("utf-8"), UnicodeDecodeError) for b in (b"\xff", b"\xc3", b"\xed\xa0\x80")))
     ok("latin1: decode is total and length preserving", all(len(bytes([b]).decode("latin-1")) == 1 for b in range(256)))
